@@ -30,7 +30,9 @@ ASSUMPTIONS = [
     "held = held on the executions produced; depth explored up to 1e4 (quick) / 1e5 (thorough)",
 ]
 REQUIRED = ["histories_checked", "events_checked", "deep_traversals", "low_limit_traversals",
-            "raising_callbacks_checked", "list_mutating_callbacks", "tap__traverse_dfs"]
+            "raising_callbacks_checked", "list_mutating_callbacks", "history_traversals",
+            "inplace_reparentings", "history_copies", "history_rerootings", "handle_variants",
+            "tap__traverse_dfs"]
 FLOOR = {"quick": 1500, "thorough": 20000}
 SHARDS = {"quick": 8, "thorough": 16}
 TECHNIQUE = ("runtime monitoring: recorded enter/leave callback histories with unique tokens "
@@ -157,6 +159,10 @@ def _run_traverse(tree, api, mode, start, *, raise_at=None, hostile=False):
             ret = su.traverse((tree.id(), tree.pid()), root=start, **kw)
         elif api == "tree":
             ret = tree.traverse(root=start, **kw)
+        elif api == "node_neg":  # the same node addressed from the end
+            ret = tree[int(start) - tree.number_of_nodes()].traverse(**kw)
+        elif api == "node_item":
+            ret = tree[np.int64(start)].traverse(**kw)
         else:
             ret = tree.node(start).traverse(**kw)
     except RuntimeError as e:
@@ -194,6 +200,8 @@ def execute(ctx, case) -> None:
         _exec_lowlimit(ctx, case)
     elif kind == "raise":
         _exec_raise(ctx, case)
+    elif kind == "history":
+        _exec_history(ctx, case)
 
 
 def _exec_small(ctx, case):
@@ -224,6 +232,79 @@ def _exec_small(ctx, case):
     r = check_history(pid, start, ev, ret, "e" in mode, "l" in mode)
     if r:
         ctx.violation(r[0], r[1] + f" | pid={pid.tolist() if n <= 30 else '...'}", case)
+
+
+def _exec_history(ctx, case):
+    """Traversals of one tree *object* interleaved with in-place topology edits through node
+    handles, copies and re-rootings: every traversal must follow the topology of that moment."""
+    from swcgeom.core.tree_utils import redirect_tree
+
+    rng = np.random.default_rng(case["hseed"])
+    spec = G.spec_from_recipe(case["tree"])
+    tree = G.build(spec)
+    pid = spec["pid"].astype(np.int64).copy()
+    n = len(pid)
+    root = 0
+
+    def traverse_and_check(t, cur_pid, cur_root, what):
+        ch = topo.children_lists(cur_pid)
+        start = int(rng.integers(0, n)) if rng.random() < 0.6 else cur_root
+        api = ("su", "tree", "node", "node_neg", "node_item")[int(rng.integers(0, 5))]
+        mode = MODES[int(rng.integers(0, 3))]
+        try:
+            ev, ret, nerr = _run_traverse(t, api, mode, start)
+        except Exception as e:
+            ctx.violation("traverse-raised", f"{what}: {api} from {start}: {type(e).__name__}: {e}",
+                          case)
+            return False
+        ctx.count("history_traversals")
+        ctx.count("events_checked", len(ev))
+        if api in ("node_neg", "node_item"):
+            ctx.count("handle_variants")
+        r = check_history(cur_pid, start, ev, ret, "e" in mode, "l" in mode)
+        if r:
+            ctx.violation(r[0], f"{what} ({api}, mode {mode}, start {start}): {r[1]} | pid now "
+                                f"{cur_pid.tolist() if n <= 30 else '...'}", case)
+            return False
+        return True
+
+    if not traverse_and_check(tree, pid, root, "fresh tree"):
+        return
+    for step in range(case["nsteps"]):
+        u = rng.random()
+        if u < 0.55 and n >= 3:
+            # re-parent a node in place (it stays a tree: the new parent is outside its subtree)
+            ch = topo.children_lists(pid)
+            k = int(rng.integers(0, n))
+            if k == root:
+                continue
+            sub = set(topo.descendants(ch, k))
+            cands = [j for j in range(n) if j not in sub and j != pid[k]]
+            if not cands:
+                continue
+            j = int(cands[int(rng.integers(0, len(cands)))])
+            tree.node(k).pid = j
+            pid[k] = j
+            ctx.count("inplace_reparentings")
+            what = f"after node({k}).pid = {j} (step {step})"
+        elif u < 0.75:
+            tree = tree.copy()
+            ctx.count("history_copies")
+            what = f"copy of the traversed tree (step {step})"
+        elif n >= 2:
+            v = int(rng.integers(0, n))
+            tree = redirect_tree(tree, v, sort=False)
+            pid = np.asarray(tree.pid()).astype(np.int64).copy()
+            root = int(np.nonzero(pid == -1)[0][0])
+            ctx.count("history_rerootings")
+            what = f"redirect_tree(tree, {v}, sort=False) of the traversed tree (step {step})"
+        else:
+            continue
+        if not np.array_equal(np.asarray(tree.pid()), pid):
+            ctx.violation("history-harness", "shadow parent array out of step", case)
+            return
+        if not traverse_and_check(tree, pid, root, what):
+            return
 
 
 def _big_pid(shape, n):
@@ -345,7 +426,7 @@ def _workload(ctx):
         starts = range(n) if n <= 40 else sorted(set(rng.integers(0, n, 12).tolist()) | {0})
         ch = topo.children_lists(spec["pid"])
         for start in starts:
-            api = APIS[int(rng.integers(0, 3))]
+            api = (APIS + ("node_neg", "node_item"))[int(rng.integers(0, 5))]
             mode = MODES[int(rng.integers(0, 3))]
             case = {"kind": "small", "tree": rc, "api": api, "mode": mode, "start": int(start)}
             if "l" in mode and rng.random() < 0.5:
@@ -359,6 +440,11 @@ def _workload(ctx):
                 case = {"kind": "small", "tree": rc, "api": api, "mode": mode, "start": start}
                 ctx.case(case, nontrivial=len(ch[start]) > 0, klass=f"api/{api}/{mode}")
                 execute(ctx, case)
+        if k % 2 == 0:
+            case = {"kind": "history", "tree": rc, "hseed": int(rng.integers(0, 2**31 - 1)),
+                    "nsteps": int(rng.integers(1, 7))}
+            ctx.case(case, nontrivial=n >= 3, klass="history")
+            execute(ctx, case)
         if k % 4 == 0 and n >= 2:
             case = {"kind": "raise", "tree": rc, "api": APIS[k // 4 % 3],
                     "start": int(rng.integers(0, n)), "node": int(rng.integers(0, n)),
